@@ -1193,7 +1193,19 @@ class FuncDecimal(ValueFunc):
         return ["obj"]
 
     def execute(self, args, environment, pos):
-        return args.getAsDecimal("obj")
+        result = args.getAsDecimal("obj")
+        if isinstance(result.value, int):
+            # asDecimal of an int keeps the exact int for comparisons; the
+            # decimal value itself is the nearest binary fraction
+            try:
+                result = ValueDecimal(float(result.value))
+            except OverflowError:
+                raise CklRuntimeError(
+                    ValueString("ERROR"),
+                    "Cannot convert " + str(result.value) + " to decimal",
+                    pos,
+                )
+        return result
 
 
 class FuncDeleteAt(ValueFunc):
